@@ -45,12 +45,12 @@ type c11Owner struct {
 }
 
 type byzHost struct {
-	inner    simnet.Host
-	at       map[int]string // request index at this host -> challenge to answer with
-	n        int
-	fired    int
-	name     string
-	onChall  func(host, challenge string)
+	inner   simnet.Host
+	at      map[int]string // request index at this host -> challenge to answer with
+	n       int
+	fired   int
+	name    string
+	onChall func(host, challenge string)
 }
 
 func (b *byzHost) Serve(req *simnet.Request) *simnet.Response {
